@@ -278,6 +278,34 @@ func bounded(fn *ssa.Function, v ssa.Value, k int64, upper bool, at *ssa.BasicBl
 			}
 		}
 	}
+	// one of several results of a helper (cols, colors, rowSize, err := geometry(…)): bounded when it is
+	// bounded at every return of the helper that does not return an error
+	if ex, ok := v.(*ssa.Extract); ok {
+		if call, ok := ex.Tuple.(*ssa.Call); ok {
+			if h := call.Call.StaticCallee(); h != nil && h.Blocks != nil && eng.InModule(h) {
+				rets := eng.Returns(h)
+				all, n := true, 0
+				for _, r := range rets {
+					if k := len(r.Results); k > 0 {
+						if _, isErr := r.Results[k-1].Type().Underlying().(*types.Interface); isErr && !eng.IsNilConst(r.Results[k-1]) {
+							continue
+						}
+					}
+					if ex.Index >= len(r.Results) {
+						all = false
+						continue
+					}
+					n++
+					if !bounded(h, r.Results[ex.Index], k, upper, r.Block(), depth+1) {
+						all = false
+					}
+				}
+				if all && n > 0 {
+					return true
+				}
+			}
+		}
+	}
 	fact := func(w ssa.Value) func(eng.Fact) bool {
 		return func(f eng.Fact) bool {
 			op, x, y, ok := f.Cmp()
